@@ -41,6 +41,30 @@ CLAIMED = {
         note="As C06. 'Context' is the set of subtrees hanging off the path from the root to the rewritten node's parent.",
         tech="path-forking symbolic execution with z3-decided branches + structural audit (bounded tree size)",
         ref="DESIGN.md section 4 C07"),
+    "C13": dict(
+        text="Every tree up to the size bound over the full node alphabet (one-operand nodes with the operand on either "
+             "side, built through the public constructors): clone() reproduces class/id/payload/identifier/operand side of "
+             "every node with no shared object and evaluates identically for every assignment (z3 validity over the real "
+             "evaluate of both copies); every mutation kind on either copy leaves the other unchanged; "
+             "inner.clone_from_root() returns the copy of that node at the same root path inside a complete disjoint copy.",
+        note="Payload equality is identity of solver terms; selectors (inner node, mutation, side) are explored "
+             "exhaustively by the engine; str() equality on two concrete payload sets per tree.",
+        tech="path-forking symbolic execution + z3 validity of evaluate(original) == evaluate(clone) (bounded tree size)",
+        ref="DESIGN.md section 4 C13"),
+    "C14": dict(
+        text="All binary tree shapes with <= 4 levels (existence bits, traversal order, start node, stop position and "
+             "queried node are solver variables; every satisfying value is explored): callback sequences equal the "
+             "recursive reference definitions cut at the stop position, look-ups agree with the link structure.",
+        note="The solver only decides feasibility of selectors here (stated in DESIGN.md); assertions run on the real objects.",
+        tech="bounded exhaustive path exploration over solver-enumerated shapes and selectors (z3 feasibility)",
+        ref="DESIGN.md section 4 C14"),
+    "C15": dict(
+        text="All binary tree shapes with <= 4 levels (thorough: plus 5-level shapes up to 10 nodes, size bound as a "
+             "pseudo-boolean solver constraint) and every node: rotate() keeps the in-order id sequence, link consistency, "
+             "grandparent slot, parent/child inversion; root rotation is the identity.",
+        note="The solver only decides feasibility of shape bits and the node selector.",
+        tech="bounded exhaustive path exploration over solver-enumerated shapes and selectors (z3 feasibility)",
+        ref="DESIGN.md section 4 C15"),
 }
 
 PENDING = {}
